@@ -272,12 +272,12 @@ pub fn real_step_open(o: &mut LOpen<u8, u8>, a: &Act) -> Real {
             }
             Act::RelabelNodes(via_map) => {
                 let old = std::mem::replace(o, LOpen::empty());
-                *o = if *via_map { old.map_nodes(|l| 1 - l.min(1)) } else { old.with_nodes(|ns| ns.into_iter().map(|l| 1 - l.min(1)).collect()).expect("with_nodes returned None for a list of the right length") };
+                *o = if *via_map { old.map_nodes(|l| 1 - l.min(1)) } else { old.with_nodes(|ns| ns.into_iter().map(|l| 1 - l.min(1)).collect()).expect("LIBRARY: with_nodes returned None for a list of the right length") };
                 Real::Done(Value::Null)
             }
             Act::RelabelEdges(via_map) => {
                 let old = std::mem::replace(o, LOpen::empty());
-                *o = if *via_map { old.map_edges(|l| 1 - l.min(1)) } else { old.with_edges(|es| es.into_iter().map(|l| 1 - l.min(1)).collect()).expect("with_edges returned None for a list of the right length") };
+                *o = if *via_map { old.map_edges(|l| 1 - l.min(1)) } else { old.with_edges(|es| es.into_iter().map(|l| 1 - l.min(1)).collect()).expect("LIBRARY: with_edges returned None for a list of the right length") };
                 Real::Done(Value::Null)
             }
             Act::WithNodesWrongLength => {
@@ -349,12 +349,12 @@ pub fn real_step_hyper(h: &mut LHyper<u8, u8>, a: &Act) -> Real {
             }
             Act::RelabelNodes(via_map) => {
                 let old = std::mem::replace(h, LHyper::empty());
-                *h = if *via_map { old.map_nodes(|l| 1 - l.min(1)) } else { old.with_nodes(|ns| ns.into_iter().map(|l| 1 - l.min(1)).collect()).expect("with_nodes None") };
+                *h = if *via_map { old.map_nodes(|l| 1 - l.min(1)) } else { old.with_nodes(|ns| ns.into_iter().map(|l| 1 - l.min(1)).collect()).expect("LIBRARY: with_nodes returned None for a list of the right length") };
                 Real::Done(Value::Null)
             }
             Act::RelabelEdges(via_map) => {
                 let old = std::mem::replace(h, LHyper::empty());
-                *h = if *via_map { old.map_edges(|l| 1 - l.min(1)) } else { old.with_edges(|es| es.into_iter().map(|l| 1 - l.min(1)).collect()).expect("with_edges None") };
+                *h = if *via_map { old.map_edges(|l| 1 - l.min(1)) } else { old.with_edges(|es| es.into_iter().map(|l| 1 - l.min(1)).collect()).expect("LIBRARY: with_edges returned None for a list of the right length") };
                 Real::Done(Value::Null)
             }
             Act::WithNodesWrongLength => {
